@@ -30,7 +30,9 @@ import (
 	api "github.com/dfklegend/cell2/apimapper"
 	as "github.com/dfklegend/cell2/actorex/service"
 	"github.com/dfklegend/cell2/apimapper/apientry"
+	"github.com/dfklegend/cell2/apimapper/registry"
 	"github.com/dfklegend/cell2/node/client/impls"
+	implcfg "github.com/dfklegend/cell2/node/client/impls/config"
 	"github.com/dfklegend/cell2/node/cluster"
 	"github.com/dfklegend/cell2/node/service"
 	"github.com/dfklegend/cell2/nodectrl/define"
@@ -138,15 +140,47 @@ func (z *Zoo) Loginw(ctx *impls.HandlerContext, a *Arg, cb apientry.HandlerCBFun
 	ctx.Session.PushSession(func(error) { apientry.CheckInvokeCBFunc(cb, nil, r) })
 }
 
+// Okboom completes and then panics in the same frame.  CallMethod remembers that a completion went
+// through, SafeCall's panic path does not complete a second time (repaired defect D23): exactly one
+// response, the handler's result — front-local and forwarded.
+func (z *Zoo) Okboom(ctx *impls.HandlerContext, a *Arg, cb apientry.HandlerCBFunc) {
+	_, r := enter(ctx, "okboom", a)
+	apientry.CheckInvokeCBFunc(cb, nil, r)
+	panic("zoo: panic after completion")
+}
+
+// RetBoom makes the client serializer PANIC (not fail): the completion function itself panics
+// before it has written anything.
+type RetBoom struct{ V int }
+
+func (r *RetBoom) MarshalJSON() ([]byte, error) { panic("zoo: MarshalJSON panics") }
+
+// Mboom completes with such a value: the completion did not go through, the panic unwinds through
+// the handler into SafeCall, which completes the request with the error "panic in rpc".
+func (z *Zoo) Mboom(ctx *impls.HandlerContext, a *Arg, cb apientry.HandlerCBFunc) {
+	enter(ctx, "mboom", a)
+	apientry.CheckInvokeCBFunc(cb, nil, &RetBoom{V: a.V})
+}
+
+// Slowboom panics only AFTER an asynchronous completion (2 s timer): the completion goes through, the
+// panic is recovered by the service's timer: one response.
+func (z *Zoo) Slowboom(ctx *impls.HandlerContext, a *Arg, cb apientry.HandlerCBFunc) {
+	ns, r := enter(ctx, "slowboom", a)
+	ns.GetRunService().GetTimerMgr().After(2*time.Second, func(args ...interface{}) {
+		apientry.CheckInvokeCBFunc(cb, nil, r)
+		panic("zoo: panic after the asynchronous completion")
+	})
+}
+
 // Tell is notify-shaped (no completion function).
 func (z *Zoo) Tell(ctx *impls.HandlerContext, a *Arg) {
 	enter(ctx, "tell", a)
 }
 
 // ZooB is registered as group "zoob" of the BACK-END types only (chat.handler, hall.handler):
-// handlers that break the "completes exactly once" rule. A forwarded request survives both (the
-// request timeout answers for a silent handler, the front drops a second reply as "miss response");
-// front-local the same handlers leave the client without / with two responses (reported, not run).
+// a handler that never completes (hang) — a forwarded request survives it (the request timeout
+// answers for the silent handler); front-local it leaves the client unanswered (reported, not run) —
+// and the back-only twin of zoo.okboom.
 type ZooB struct {
 	api.APIEntry
 }
@@ -160,11 +194,71 @@ func (z *ZooB) Hang(ctx *impls.HandlerContext, a *Arg, cb apientry.HandlerCBFunc
 	})
 }
 
-// Okboom completes and then panics in the same frame: SafeCall completes a second time.
+// Okboom completes and then panics in the same frame (see Zoo.Okboom).
 func (z *ZooB) Okboom(ctx *impls.HandlerContext, a *Arg, cb apientry.HandlerCBFunc) {
 	_, r := enter(ctx, "okboom", a)
 	apientry.CheckInvokeCBFunc(cb, nil, r)
 	panic("zoob: panic after completion")
+}
+
+// Scripted is the only group of the collection "frame.handler" (a service type without instances: no
+// client route reaches it).  Op `frame body=<acts>` calls it through the REAL CallWithSerialize →
+// APICollection.Call → APIContainer.CallMethod → SafeCall with a completion function shaped like the
+// one of HandlerComponent.Process (error → error; else serializer.Marshal(ret), which PANICS for a
+// *RetBoom).  The body executes its acts in order: c = complete with a result, m = complete with a
+// *RetBoom (the completion function panics before it has recorded anything), e = complete with an
+// error, p = panic.  Observation: what the completion function recorded, in order (d = data, e = error).
+type Scripted struct {
+	api.APIEntry
+}
+
+type ScriptArg struct {
+	S string `json:"s"`
+}
+
+func (z *Scripted) Run(ctx *impls.HandlerContext, a *ScriptArg, cb apientry.HandlerCBFunc) {
+	for _, ch := range a.S {
+		switch ch {
+		case 'c':
+			apientry.CheckInvokeCBFunc(cb, nil, &Ret{S: "f", M: "run"})
+		case 'm':
+			apientry.CheckInvokeCBFunc(cb, nil, &RetBoom{})
+		case 'e':
+			apientry.CheckInvokeCBFunc(cb, errors.New("scripted failure"), nil)
+		case 'p':
+			panic("scripted panic")
+		}
+	}
+}
+
+func execFrame(body string) string {
+	if body == "-" {
+		body = ""
+	}
+	if strings.Trim(body, "cmep") != "" {
+		return "bad-op"
+	}
+	col := registry.Registry.GetCollection("frame.handler")
+	if col == nil {
+		return "bad-op"
+	}
+	serializer := implcfg.GetConfig().Serializer
+	var got []string
+	cbFunc := func(e error, ret interface{}) {
+		if e != nil {
+			got = append(got, "e")
+			return
+		}
+		if _, serr := serializer.Marshal(ret); serr != nil {
+			got = append(got, "e")
+			return
+		}
+		got = append(got, "d")
+	}
+	return hx.Guard(func() string {
+		apientry.CallWithSerialize(col, nil, "scr.run", []byte(fmt.Sprintf(`{"s":%q}`, body)), cbFunc, serializer)
+		return "done=" + strings.Join(got, "")
+	})
 }
 
 // ---------------------------------------------------------------- world
@@ -194,6 +288,7 @@ func start(h *hx.T) *world {
 			node.RegisterHandler(t, &ZooB{}, "zoob")
 		}
 	}
+	node.RegisterHandler("frame", &Scripted{}, "scr")
 	node.RouteBySessionKey("chat", "chatid")
 	// every session reads its packets through the REAL tcpPlayerConn.GetNextMessage (overlay shim)
 	node.Framing = acceptor.VerifTCPPlayerConn
@@ -449,6 +544,12 @@ func (w *world) exec(op string) string {
 		w.n.SetTopology(members(k))
 		w.n.Wait()
 		return "ok"
+	case "frame":
+		b, ok := hx.KV(ws, "body")
+		if !ok {
+			return "bad-op"
+		}
+		return execFrame(b)
 	case "adv":
 		w.n.Advance(5 * time.Second)
 		return w.collect()
@@ -464,7 +565,7 @@ func (w *world) exec(op string) string {
 var (
 	types      = []string{"gate", "gate", "chat", "chat", "chat", "hall", "room"}
 	groups     = []string{"zoo", "zoo", "zoo", "zoo", "zoo", "zoo", "zoo", "zoo", "nogrp", ""}
-	methods    = []string{"echo", "echo", "echo", "fail", "boom", "slow", "slow", "late", "s29", "s33", "tell", "tell", "nan", "fail0", "login", "loginw", "nosuch", ""}
+	methods    = []string{"echo", "echo", "echo", "fail", "boom", "slow", "slow", "late", "s29", "s33", "tell", "tell", "nan", "fail0", "login", "loginw", "okboom", "okboom", "mboom", "mboom", "slowboom", "nosuch", ""}
 	// routes that are not valid UTF-8 (%xx = raw byte): a forwarded envelope can not be serialised
 	badUTF8    = []string{"hall.zoo.ech%ff", "chat.zoo.%c3%28", "hall.%fezoo.echo", "chat.zoo.echo%80", "gate.zoo.ech%ff", "ha%ffll.zoo.echo"}
 	malformed  = []string{"", ".", "..", "...", "gate", "gatezooecho", "gate.zoo", "chat.zoo", "gate.zoo.echo.x", "chat.zoo.echo.x", "a.b.c.d.e", "gate..", "chat..", "..echo", ".zoo.echo", "gate.zoo.", "chat..echo", "gate.zoo.echo.", ".gate.zoo.echo"}
@@ -569,7 +670,8 @@ func (g *gen) item(nc int) string {
 }
 
 var pipeRoutes = []string{"hall.zoo.echo", "hall.zoo.echo", "hall.zoo.slow", "hall.zoo.tell", "hall.zoo.fail", "hall.zoo.late",
-	"gate.zoo.echo", "gate.zoo.slow", "gate.zoo.tell", "chat.zoo.echo", "room.zoo.echo", "hall.zoo.nosuch", "gate.zoo"}
+	"gate.zoo.echo", "gate.zoo.slow", "gate.zoo.tell", "chat.zoo.echo", "room.zoo.echo", "hall.zoo.nosuch", "gate.zoo",
+	"gate.zoo.okboom", "gate.zoo.mboom", "hall.zoo.okboom", "hall.zoo.mboom"}
 
 // a message of a pipelined new client c: request or notify, front-local (gate) or forwarded
 // (hall: no binding needed), a few unserviceable ones
@@ -623,6 +725,21 @@ func (g *gen) genCase() []string {
 			g.h.Count("pipe")
 			ops = append(ops, fmt.Sprintf("pipe c=%d q=%s", nc, strings.Join(items, "|")))
 			nc++
+			continue
+		}
+		if r.Intn(20) == 0 {
+			// the synchronous frame of a request handler, driven directly: 0-4 acts
+			n := r.Intn(5)
+			b := make([]byte, n)
+			for j := range b {
+				b[j] = "ccmepp"[r.Intn(6)]
+			}
+			body := string(b)
+			if body == "" {
+				body = "-"
+			}
+			g.h.Count(fmt.Sprintf("frame.len%d", n))
+			ops = append(ops, "frame body="+body)
 			continue
 		}
 		if r.Intn(14) == 0 {
@@ -716,6 +833,23 @@ func exhaustiveRoutes(w *world) int {
 	return n
 }
 
+// "-" (the empty body) and every string over c, m, e, p of length 1..k
+func allBodies(k int) []string {
+	out := []string{"-"}
+	prev := []string{""}
+	for i := 0; i < k; i++ {
+		var next []string
+		for _, p := range prev {
+			for _, ch := range "cmep" {
+				next = append(next, p+string(ch))
+			}
+		}
+		out = append(out, next...)
+		prev = next
+	}
+	return out
+}
+
 func TestRun(t *testing.T) {
 	synctest.Test(t, func(t *testing.T) {
 		h := hx.Open()
@@ -733,6 +867,13 @@ func TestRun(t *testing.T) {
 		for _, op := range []string{"reset nc=2", "bind c=1 to=chat-2", "reqs q=1,1,chat.zoo.slow,v1",
 			"flood c=0 n=10080 id0=1 v0=100 route=gate.zoo.echo", "reqs q=0,20000,hall.zoo.echo,v2|1,2,chat.zoo.echo,v3", "flush"} {
 			h.Count("flood")
+			h.Emit(op, w.exec(op))
+		}
+		// every handler frame of up to 3 acts (85 bodies), driven directly through CallMethod / SafeCall
+		h.Emit("reset nc=1", w.exec("reset nc=1"))
+		for _, body := range allBodies(3) {
+			h.Count("frame.exhaustive")
+			op := "frame body=" + body
 			h.Emit(op, w.exec(op))
 		}
 		g := &gen{h: h}
